@@ -264,8 +264,11 @@ def run(fw):
     fw.families['kinds']['programs_the_parser_rejects'] = sum(r.get('unparsed', 0) for r in recs)
     quick = fw.tier == 'quick'
     g = [{'stage': 'tokenize', 'ctx': c, 'n': n} for c in (CONTEXTS[:2] if quick else CONTEXTS[:5]) for n in ((1, 2) if quick else (1, 2, 3))]
-    g += [{'stage': 'eval', 'ctx': c, 'n': n} for c in CONTEXTS for n in ((1,) if quick else (1, 2))]
-    fw.bounds['garbage'] = '%d contexts with 1..%d (tokenizer) / 1..%d (parser + evaluator) fully symbolic ASCII bytes (0x01..0x7f) spliced in' % (len(CONTEXTS), 2 if quick else 3, 1 if quick else 2)
+    g += [{'stage': 'eval', 'ctx': c, 'n': 1} for c in CONTEXTS]
+    if not quick:
+        # two symbolic bytes through parser + evaluator cost ~30k paths per context: three contexts (file start, expression, between operands)
+        g += [{'stage': 'eval', 'ctx': c, 'n': 2} for c in (CONTEXTS[0], CONTEXTS[1], CONTEXTS[4])]
+    fw.bounds['garbage'] = '%d contexts with 1..%d (tokenizer) / 1 (parser + evaluator; 2 in three contexts in the thorough tier) fully symbolic ASCII bytes (0x01..0x7f) spliced in' % (len(CONTEXTS), 2 if quick else 3)
     fw.explore('garbage', harness_garbage, g, fuel=400_000_000)
     nest = [{'kind': k, 'depth': 5 if quick else 7} for k in NEST]
     fw.bounds['nesting_cost'] = 'parser steps for nesting depth 1..%d of %s: increments bounded by 4x the first increment (bounded execution; a proxy for termination, which symbolic execution cannot decide)' % (5 if quick else 7, ', '.join(NEST))
